@@ -133,6 +133,14 @@ def build(case):
         r = vRecur()
         for k, v in reversed(kv):
             r[k] = v
+    elif how == "setitem-bytes":
+        # the part value classes accept bytes: a bare bytes scalar assigned to a part is ONE value, not a list of octets
+        r = vRecur()
+        for k, v in reversed(kv):
+            # only where the part's value class has a bytes constructor (integers, FREQ, weekdays)
+            if type(v) is int or (type(v) is str and k.upper() in ("FREQ", "BYDAY", "WKST")):
+                v = str(v).encode("utf-8")
+            r[k] = v
     else:  # through a component: Event.add('rrule', mapping)
         ev = Event()
         ev.add("rrule", dict(kv))
@@ -419,7 +427,7 @@ def run(ctx):
     ctx.rule = (f"E-enum: 7 FREQ x every subset of <={j} of 16 optional rule parts x every menu value (2-5 per part: single, "
                 "multiple, negative, ordinal weekdays, leap month, RSCALE/SKIP, X-part, UNTIL as date/floating/UTC) x key "
                 "case {upper, lower} x value shape {scalar, list} x construction {keywords, positional mapping, item "
-                "assignment in reverse order, Event.add}. E-hist: decode / mutate-in-place (8 mutations) / decode histories over every rule with <=1 (thorough 2) optional parts, codec and component path. non-trivial = at least one optional part.")
+                "assignment in reverse order, Event.add, item assignment of bytes scalars}. E-hist: decode / mutate-in-place (8 mutations) / decode histories over every rule with <=1 (thorough 2) optional parts, codec and component path. non-trivial = at least one optional part.")
     ctx.bounds = {"max_optional_parts": j, "parts": {k: len(v) for k, v in PARTS.items()}}
     ctx.assumptions += ["COUNT together with UNTIL, and sub-daily FREQ with date-restricting BY parts, are round-tripped but "
                         "not expanded (dateutil cost / RFC forbids the former)",
@@ -427,7 +435,7 @@ def run(ctx):
     names = list(PARTS)
 
     def gen():
-        hows = ("kw", "map", "setitem", "add")
+        hows = ("kw", "map", "setitem", "add", "setitem-bytes")
         i = 0
         for n in range(0, j + 1):
             for combo in itertools.combinations(names, n):
@@ -438,7 +446,7 @@ def run(ctx):
                             for as_lists in (False, True):
                                 i += 1
                                 # every construction path for <=1 part; rotate it for larger subsets
-                                for how in (hows if n <= 1 else (hows[i % 4],)):
+                                for how in (hows if n <= 1 else (hows[i % 5],)):
                                     yield ("r", how, freq, parts, lower, as_lists)
 
     ctx.explore("rules", gen, run_case)
